@@ -1037,10 +1037,7 @@ bool Process::setEnvironmentVariable(const String& name, const String& value)
 bool Process::Arguments::nextChar()
 {
   if(*arg)
-  {
-    ++arg;
     return true;
-  }
   if(argv < argvEnd)
   {
     arg = *(argv++);
